@@ -6,6 +6,13 @@ tokens; rename_blocks and reorder follow the statement order of t2grids.py.
   * correspondence: grids built from geometries by the real fromgeo are replayed into the extracted model,
     then the same sequence of reorder / rename_blocks calls runs on both; the dump of every block and
     connection WITH its payload is compared after every step.
+    coq/C09/MincModel.v is a second hand model (heap of objects, volumes / distances / areas as exact
+    rationals) of t2grid.minc, __add__ and embed: the same grids are replayed into it, the same minc() /
+    embed() call runs on both sides and the whole grid afterwards (rock types, blocks with volume / rock /
+    centre / connection_name, connections with distances / area, the three dictionaries in order) is
+    compared, numbers to 1e-12 relative (the model is exact, the implementation works in doubles).  The
+    MINC geometry values d[], a[] the model takes as inputs are read off a probe run of the real minc on a
+    one-block grid of volume 1 (same fractions / spacing / planes).
   * oracle (independent of the model): the physical signature of the real grid -- per block (volume, rock
     type, centre), per connected pair (area, direction, each block's own distance and nad, gravity cosine
     oriented from one named block to the other) -- must be unchanged by reorder and relabelled by rename;
@@ -66,6 +73,104 @@ def grid_as_fields(g):
                    [hx(tok(v)) for v in (c.distance[0], c.distance[1], c.area, c.direction, c.dircos, c.nad1, c.nad2)])
           for c in g.connectionlist]
     return f
+
+
+# ---- MincModel.v wire format: numbers as exact rationals ----------------------------------------------
+def qtok(x):
+    n, d = float(x).as_integer_ratio()
+    return '%d:%d' % (n, d)
+
+
+def rock_props_tok(r):
+    return '_'.join([tok(r.density), tok(r.porosity)] + [repr(float(v)) for v in r.permeability] + [tok(r.conductivity), tok(r.specific_heat)])
+
+
+def rock_rest_tok(r):
+    dflt = (r.compressibility, r.expansivity, r.dry_conductivity, r.tortuosity) == (0.0, 0.0, 0.0, 0.0) and \
+        r.relative_permeability == {} and r.capillarity == {}
+    return 'dflt' if dflt else 'set'
+
+
+def qgrid_fields(g):
+    f = [','.join(['qr', hx(r.name), hx(tok(r.nad)), hx(rock_props_tok(r)), hx(rock_rest_tok(r))]) for r in g.rocktypelist]
+    f += [','.join(['qb', hx(b.name), qtok(b.volume), hx(b.rocktype.name), hx(ctok(b.centre))]) for b in g.blocklist]
+    f += [','.join(['qc', hx(c.block[0].name), hx(c.block[1].name), qtok(c.distance[0]), qtok(c.distance[1]), qtok(c.area),
+                    hx(tok(c.direction)), hx(tok(c.dircos))]) for c in g.connectionlist]
+    return f
+
+
+def qdump(g):
+    """what coq/C09/Drv.v `qobserve` prints (connection_name sets sorted here, compared as sets)"""
+    R = ','.join('%s/%s/%s/%s' % (r.name, tok(r.nad), rock_props_tok(r), rock_rest_tok(r)) for r in g.rocktypelist)
+    B = ','.join('%s/#%s/%s/%s/%s' % (b.name, qtok(b.volume), b.rocktype.name, ctok(b.centre),
+                                      '+'.join('%s~%s' % tuple(k) for k in sorted(b.connection_name))) for b in g.blocklist)
+    C = ','.join('%s~%s/#%s/#%s/#%s/%s/%s' % (c.block[0].name, c.block[1].name, qtok(c.distance[0]), qtok(c.distance[1]), qtok(c.area),
+                                             tok(c.direction), tok(c.dircos)) for c in g.connectionlist)
+    RD = ','.join('%s=%s' % (k, v.name) for k, v in g.rocktype.items())
+    BD = ','.join('%s=%s' % (k, v.name) for k, v in g.block.items())
+    CD = ','.join('%s~%s=%s~%s' % (k[0], k[1], v.block[0].name, v.block[1].name) for k, v in g.connection.items())
+    return 'R:%s;B:%s;C:%s;RD:%s;BD:%s;CD:%s' % (R, B, C, RD, BD, CD)
+
+
+QTOL = 1e-12
+
+
+def _qnum(t):
+    from fractions import Fraction
+    n, d = t[1:].split(':')
+    return Fraction(int(n), int(d))
+
+
+def qdump_diff(model, impl):
+    """None when the two dumps agree (numbers to QTOL relative, connection_name as sets), else a description"""
+    if model == impl: return None
+    pm, pi = model.split('|'), impl.split('|')
+    if len(pm) != len(pi): return 'number of dumps %d / %d' % (len(pm), len(pi))
+    for dm, di in zip(pm, pi):
+        if dm == di: continue
+        sm, si = dm.split(';'), di.split(';')
+        if len(sm) != len(si): return 'sections differ: %r / %r' % (dm[:200], di[:200])
+        for a, b in zip(sm, si):
+            if a == b: continue
+            ia, ib = a.split(','), b.split(',')
+            if len(ia) != len(ib): return 'section %s has %d / %d entries' % (a[:3], len(ia), len(ib))
+            for x, y in zip(ia, ib):
+                if x == y: continue
+                fx, fy = x.split('/'), y.split('/')
+                if len(fx) != len(fy): return 'entry %r / %r' % (x, y)
+                for k, (u, v) in enumerate(zip(fx, fy)):
+                    if u == v: continue
+                    if u.startswith('#') and v.startswith('#'):
+                        qu, qv = _qnum(u), _qnum(v)
+                        if abs(qu - qv) <= QTOL * max(abs(qu), abs(qv)): continue
+                        return 'entry %r: model %r, implementation %r' % (fx[0], float(qu), float(qv))
+                    if a.startswith('B:') and k == 4 and sorted(u.split('+')) == sorted(v.split('+')): continue
+                    return 'entry %r field %d: model %r, implementation %r' % (fx[0], k, u, v)
+    return None
+
+
+def probe_minc_geometry(T, fr, spacing, nplanes):
+    """d[0..L-1], a[0..L-2] as the real minc computes them: run it on a one-block grid of volume 1, where the
+    connection areas are 1.0 * a[m-1] and the distances [d[m-1], d[m]]"""
+    g = T.t2grid(); rt = T.rocktype(); g.add_rocktype(rt); g.add_block(T.t2block('probe', 1.0, rt))
+    g.minc(list(fr), spacing=spacing, num_fracture_planes=nplanes)
+    cons = g.connectionlist
+    d = [float(cons[0].distance[0])] + [float(c.distance[1]) for c in cons]
+    a = [float(c.area) for c in cons]
+    for k in range(1, len(cons)):
+        if float(cons[k].distance[0]) != d[k]: raise RuntimeError('probe distances inconsistent')
+    return d, a
+
+
+def wf_real(g):
+    """the hypothesis [wf] of the MINC theorems, read off the real grid (ids below the allocation counter aside)"""
+    if len(set(map(id, g.blocklist))) != len(g.blocklist) or len(g.block) != len(g.blocklist): return False
+    if any(g.block.get(b.name) is not b for b in g.blocklist): return False
+    if len(set(map(id, g.connectionlist))) != len(g.connectionlist) or len(g.connection) != len(g.connectionlist): return False
+    for c in g.connectionlist:
+        if g.connection.get(tuple(b.name for b in c.block)) is not c: return False
+        if any(g.block.get(b.name) is not b for b in c.block): return False
+    return all(r.name == k for k, r in g.rocktype.items())
 
 
 def encode_op(op):
@@ -348,43 +453,76 @@ def reorder_rename_worker(args):
 
 
 # ---- MINC ---------------------------------------------------------------------------------------------
+def compare_with_model(st, exe, lines, cases, expects):
+    if not (exe and lines): return
+    outs = vf.run_driver(exe, lines, shards=1)
+    for c, e, o in zip(cases, expects, outs):
+        d = qdump_diff(o, e)
+        if d:
+            st.ndis += 1
+            if len(st.disagree) < 20: st.disagree.append({'case': c, 'step': 0, 'model': (d + ' :: ' + o)[:1500], 'impl': e[:1500]})
+
+
 def minc_worker(args):
-    seed, ncases, sizes = args
+    seed, ncases, exe, sizes, with_files = args
     rng = random.Random(seed)
     st = Stats()
     T = _impl()
+    lines, cases, expects = [], [], []
     for ci in range(ncases):
         params = random_geo_params(rng, rng.choice(sizes))
         params = params[:7] + (False,)
         try: geo, g = build(params)
         except Exception as e:
             st.skipped['geometry-construction-failed:' + exn_name(e)] += 1; continue
+        if any(not NAME_OK.match(b.name) for b in g.blocklist): st.skipped['name-alphabet'] += 1; continue
         nlev = rng.randint(2, 6)
-        fr = [rng.choice([0.05, 0.1, 0.2, 0.3, 1.0, 2.5, rng.uniform(0.01, 3.)]) for _ in range(nlev)]
+        fr = [rng.choice([0.05, 0.1, 0.2, 0.3, 1.0, 2.5, 3, rng.uniform(0.01, 3.)]) for _ in range(nlev)]
         nplanes = rng.randint(1, 3)
         spacing = rng.choice([50., 10., 100., [30., 40., 50.][:nplanes], rng.uniform(1., 300.)])
         names = [b.name for b in g.blocklist]
         sel = None
-        if rng.random() < 0.5 and len(names) > 1:
-            sel = rng.sample(names, rng.randint(1, len(names)))
-            if rng.random() < 0.3: sel = [g.block[n] for n in sel]         # block objects are accepted too
-        atmos_volume = rng.choice([1.e25, 1.e25, 1.e25, 300.])
+        style = 'all-blocks'
+        if rng.random() < 0.55 and len(names) > 1:
+            sel = rng.sample(names, rng.randint(1, len(names))); style = 'partial'
+            if rng.random() < 0.08:
+                sel.insert(rng.randrange(len(sel) + 1), rng.choice(sel)); style = 'partial-with-a-repeated-name'
+            elif rng.random() < 0.3:
+                sel = [g.block[n] for n in sel]; style = 'partial(block objects)'          # block objects are accepted too
+        atmos_volume = rng.choice([1.e25, 1.e25, 1.e25, 300., 1000.])
+        if rng.random() < 0.2: g.rocktypelist[0].compressibility = 1.e-9       # not copied by duplicate_rock
         case = {'geo': list(params), 'volume_fractions': fr, 'spacing': spacing, 'num_fracture_planes': nplanes,
                 'blocks': None if sel is None else [b if isinstance(b, str) else b.name for b in sel],
                 'blocks_as_objects': bool(sel) and not isinstance(sel[0], str), 'atmos_volume': atmos_volume}
+        try: d_, a_ = probe_minc_geometry(T, fr, spacing, nplanes)
+        except Exception as e:
+            st.skipped['minc-geometry-raises:' + exn_name(e)] += 1; continue
         st.kinds['levels:%d' % nlev] += 1; st.kinds['planes:%d' % nplanes] += 1
-        st.kinds['partial' if sel is not None else 'all-blocks'] += 1
+        st.kinds[style] += 1
+        st.kinds['wf-hypothesis-holds' if wf_real(g) else 'wf-hypothesis-fails'] += 1
         st.cases += 1
         st.distinct.append(zlib.crc32(json.dumps(case, sort_keys=True).encode()))
-        d = minc_check(g, case, sel)
+        line = 'M\t' + '\t'.join(qgrid_fields(g) + ['mi;%s;%s;%s;%s;%s' % (
+            qtok(atmos_volume), ','.join(qtok(f) for f in fr), ','.join(hx(n) for n in (case['blocks'] or [])),
+            ','.join(qtok(x) for x in d_), ','.join(qtok(x) for x in a_))])
+        d, exc = minc_check(g, case, sel)
         for key, obs, req in d: st.failure(key, case, obs, req)
+        if exc: st.kinds['raises:' + exc] += 1
+        lines.append(line); cases.append(case); expects.append('E:' + exc if exc else qdump(g))
+        if with_files and not exc and not d and rng.random() < with_files and len(g.blocklist) <= 150:
+            try:
+                fd = file_roundtrip_diff(g, phys(g)); st.filerounds += 1
+            except Exception as e:
+                fd = None; st.skipped['file-round-trip-raised:' + exn_name(e)] += 1
+            if fd: st.failure('write-read:after-minc', case, fd, 'the MINC grid (volumes of every continuum, the nested connections) survives t2data.write / t2data(filename) to file precision')
         if len(st.samples) < 2 and len(names) <= 6:
             st.samples.append({'minc_case': case, 'blocks_after': [(b.name, float(b.volume)) for b in g.blocklist][:12]})
+    compare_with_model(st, exe, lines, cases, expects)
     return st
 
 
 def minc_check(g, case, sel):
-    """run minc on the real grid and evaluate the three MINC clauses; returns [(key, observed, required)]"""
+    """run minc on the real grid and evaluate the three MINC clauses; returns ([(key, observed, required)], exception name or None)"""
     fr = list(case['volume_fractions'])
     before = {b.name: (float(b.volume), set(b.connection_name), b.rocktype.name) for b in g.blocklist}
     order = [b.name for b in g.blocklist]
@@ -396,8 +534,8 @@ def minc_check(g, case, sel):
         g.minc(list(fr), spacing=case['spacing'], num_fracture_planes=case['num_fracture_planes'], blocks=sel, atmos_volume=atm)
     except Exception as e:
         # duplicate matrix block names are a documented refusal; anything else is reported
-        if type(e) is Exception and 'Duplicate MINC matrix block name' in str(e): return []
-        return [('minc:raises', 'raised %s: %s' % (exn_name(e), str(e)[:200]), 'minc completes on a grid built from a geometry')]
+        if type(e) is Exception and 'Duplicate MINC matrix block name' in str(e): return [], exn_name(e)
+        return [('minc:raises', 'raised %s: %s' % (exn_name(e), str(e)[:200]), 'minc completes on a grid built from a geometry')], exn_name(e)
     out = []
     tot = sum(fr)
     vf_ = [f / tot for f in fr]
@@ -455,45 +593,61 @@ def minc_check(g, case, sel):
     nexp = len(order) + (L - 1) * len(processed)
     if len(g.blocklist) != nexp:
         out.append(('minc:partial', '%d blocks after minc, expected %d' % (len(g.blocklist), nexp), 'L-1 matrix blocks per processed block'))
-    return out[:3]
+    return out[:3], None
 
 
 # ---- embed -----------------------------------------------------------------------------------------------
+def embed_setup(T, rng_or_none, g, case):
+    """the sub-grid, the host / connecting blocks and the connection object of an embed case"""
+    from mulgrids import mulgrid
+    sx, sy, sz, scale = case['sub']
+    kw = {} if case.get('collide') else {'chars': 'uvwxyz'}
+    subgeo = mulgrid().rectangular([scale] * sx, [scale] * sy, [scale] * sz, atmos_type=2, convention=case.get('convention', 0), **kw)
+    sub = T.t2grid().fromgeo(subgeo)
+    host = g.block[case['host']]
+    inner = sub.block[case['inner']] if case['inner'] in sub.block else sub.blocklist[0]
+    con = T.t2connection([host, inner], 1, list(case['distances']), case['area'], 0.0)
+    return sub, host, inner, con
+
+
 def embed_worker(args):
-    seed, ncases, sizes = args
+    seed, ncases, exe, sizes = args
     rng = random.Random(seed)
     st = Stats()
     T = _impl()
-    from mulgrids import mulgrid
+    import io, contextlib
+    lines, cases, expects = [], [], []
     for ci in range(ncases):
         params = random_geo_params(rng, rng.choice(sizes))
         params = params[:7] + (False,)
         try: geo, g = build(params)
         except Exception as e:
             st.skipped['geometry-construction-failed:' + exn_name(e)] += 1; continue
-        sx, sy, sz = rng.randint(1, 2), rng.randint(1, 2), rng.randint(1, 2)
-        scale = rng.choice([0.5, 1., 2.])
-        subgeo = mulgrid().rectangular([scale] * sx, [scale] * sy, [scale] * sz, atmos_type=2, chars='uvwxyz', convention=rng.choice([0, 1, 2]))
-        sub = T.t2grid().fromgeo(subgeo)
-        hosts = [b for b in g.blocklist]
-        host = rng.choice(hosts)
-        inner = rng.choice(sub.blocklist)
-        con = T.t2connection([host, inner], 1, [rng.uniform(0.1, 5.), rng.uniform(0.1, 2.)], rng.uniform(0.1, 10.), 0.0)
-        case = {'geo': list(params), 'sub': [sx, sy, sz, scale], 'host': host.name, 'inner': inner.name}
+        if any(not NAME_OK.match(b.name) for b in g.blocklist): st.skipped['name-alphabet'] += 1; continue
+        case = {'geo': list(params), 'sub': [rng.randint(1, 2), rng.randint(1, 2), rng.randint(1, 2), rng.choice([0.5, 1., 2., 4.])],
+                'convention': rng.choice([0, 1, 2]), 'collide': rng.random() < 0.12, 'host': rng.choice(g.blocklist).name,
+                'distances': [rng.uniform(0.1, 5.), rng.uniform(0.1, 2.)], 'area': rng.uniform(0.1, 10.)}
+        case['inner'] = ''
+        sub, host, inner, con = embed_setup(T, rng, g, case)
+        inner = rng.choice(sub.blocklist); con.block[1] = inner; case['inner'] = inner.name
+        if any(not NAME_OK.match(b.name) for b in sub.blocklist): st.skipped['name-alphabet'] += 1; continue
         subvol = sum(float(b.volume) for b in sub.blocklist)
         total = sum(float(b.volume) for b in g.blocklist)
         hostvol = float(host.volume)
         dup = set(b.name for b in g.blocklist) & set(b.name for b in sub.blocklist)
         st.cases += 1
         st.distinct.append(zlib.crc32(json.dumps(case, sort_keys=True).encode()))
-        import io, contextlib
+        line = 'E\t' + '\t'.join(qgrid_fields(g) + ['sub'] + qgrid_fields(sub) + [','.join(
+            ['em', hx(host.name), hx(inner.name), qtok(con.distance[0]), qtok(con.distance[1]), qtok(con.area), hx(tok(con.direction)), hx(tok(con.dircos))])])
         try:
             with contextlib.redirect_stdout(io.StringIO()):
                 r = g.embed(sub, con)
         except Exception as e:
-            st.failure('embed:raises', case, 'raised %s: %s' % (exn_name(e), str(e)[:200]), 'embed returns a grid or None'); continue
+            st.failure('embed:raises', case, 'raised %s: %s' % (exn_name(e), str(e)[:200]), 'embed returns a grid or None')
+            lines.append(line); cases.append(case); expects.append('E:' + exn_name(e)); continue
+        lines.append(line); cases.append(case); expects.append(('None' if r is None else qdump(r)) + '|' + qdump(g))
         if r is None:
-            st.kinds['refused:' + ('duplicate-names' if dup else 'host-too-small')] += 1
+            st.kinds['refused:' + ('host-too-small' if not subvol < hostvol else 'duplicate-names')] += 1
             if not dup and subvol < hostvol: st.failure('embed:refused', case, 'embed returned None', 'a sub-grid smaller than its host with distinct names is embedded')
             continue
         st.kinds['embedded'] += 1
@@ -508,6 +662,7 @@ def embed_worker(args):
         if len(r.blocklist) != len(g.blocklist) + len(sub.blocklist) or (host.name, inner.name) not in r.connection:
             st.failure('embed:structure', case, '%d blocks, connection present: %r' % (len(r.blocklist), (host.name, inner.name) in r.connection),
                        'all blocks of both grids and the linking connection are present')
+    compare_with_model(st, exe, lines, cases, expects)
     return st
 
 
@@ -522,8 +677,8 @@ def sweep(ctx, exe, n_rr, n_minc, n_embed, sizes, with_files, label=''):
         while k < n:
             jobs.append((kind, mk(ctx.rng.getrandbits(48), min(per, n - k)))); k += per
     split(n_rr, 'rr', lambda s, n: (s, n, exe, sizes, with_files))
-    split(n_minc, 'minc', lambda s, n: (s, n, sizes))
-    split(n_embed, 'embed', lambda s, n: (s, n, sizes))
+    split(n_minc, 'minc', lambda s, n: (s, n, exe, sizes, with_files))
+    split(n_embed, 'embed', lambda s, n: (s, n, exe, sizes))
     tot = {'rr': Stats(), 'minc': Stats(), 'embed': Stats()}
     fn = {'rr': reorder_rename_worker, 'minc': minc_worker, 'embed': embed_worker}
     with mp.Pool(vf.NPROC) as pool:
@@ -540,9 +695,16 @@ def sweep(ctx, exe, n_rr, n_minc, n_embed, sizes, with_files, label=''):
         ctx.oracle_cases('physics-unchanged-by-reorder-and-rename' + label, st.cases, steps_checked=st.steps, op_kinds=dict(st.kinds),
                          connections_listed_reversed=st.reversed_conns, exceptions=dict(st.errors), file_round_trips=st.filerounds,
                          failures_by_key=dict(st.failn), grids=dict(st.sizes), skipped=dict(st.skipped))
-    for k, oname in (('minc', 'minc-volume-split-chain-partial'), ('embed', 'embed-conserves-volume')):
+    for k, oname, cname in (('minc', 'minc-volume-split-chain-partial', 'minc-on-fromgeo-grids'), ('embed', 'embed-conserves-volume', 'embed-of-a-rectangular-subgrid')):
         s2 = tot[k]
-        if s2.cases: ctx.oracle_cases(oname + label, s2.cases, kinds=dict(s2.kinds), failures_by_key=dict(s2.failn), skipped=dict(s2.skipped))
+        if not s2.cases: continue
+        ctx.oracle_cases(oname + label, s2.cases, kinds=dict(s2.kinds), failures_by_key=dict(s2.failn), skipped=dict(s2.skipped),
+                         file_round_trips=s2.filerounds)
+        if exe:
+            ctx.corr_cases(cname + label, s2.cases, kinds=dict(s2.kinds), skipped=dict(s2.skipped), relative_tolerance=QTOL)
+            for d in s2.disagree: ctx.disagreement(cname + label, d['case'], d['model'], d['impl'])
+            extra = s2.ndis - len(s2.disagree)
+            if extra > 0: ctx.corr[cname + label]['n_disagreements'] = ctx.corr[cname + label].get('n_disagreements', 0) + extra
     names = {'rr': 'physics-unchanged-by-reorder-and-rename', 'minc': 'minc-volume-split-chain-partial', 'embed': 'embed-conserves-volume'}
     for k in ('rr', 'minc', 'embed'):
         s2 = tot[k]
@@ -561,24 +723,31 @@ def run(ctx):
                 '(1) 1-4 random calls of reorder (random permutation of blocks and/or connections, a random 0/20/50/100% of the connections listed with their blocks swapped, '
                 'or reorder by the geometry lists) and rename_blocks (fresh names, all blocks, swaps, cycles, chains; fix_blocknames on and off), each step compared with the '
                 'extracted model (payload dump) and with the physical signature before; a sample is also written to a TOUGH2 data file and read back; '
-                '(2) minc with 2-6 volume fractions, 1-3 fracture-plane sets, assorted spacings, all blocks or a random selection (names or objects), two atmos_volume cut-offs; '
-                '(3) embed of a small rectangular sub-grid into a random host block. A case is one grid with its call sequence / parameter set; all counted cases are non-trivial '
-                '(at least one call on a non-empty grid); distinct by the encoded case')
+                '(2) minc with 2-6 volume fractions (un-normalised, integers and floats), 1-3 fracture-plane sets, assorted spacings, all blocks or a random selection (names or block '
+                'objects, sometimes with a repeated name: refusal), three atmos_volume cut-offs, a rock type with non-default secondary attributes in 20%: the whole grid afterwards is '
+                'compared with the extracted MincModel and the three MINC clauses are evaluated on the real grid; a sample is written to a data file and read back; '
+                '(3) embed of a small rectangular sub-grid into a random host block (12% with colliding block names, some hosts too small, some atmosphere hosts): result grid and the '
+                'aliased self grid compared with the model, total volume / host volume / structure evaluated on the real result. A case is one grid with its call sequence / parameter '
+                'set; all counted cases are non-trivial (at least one call on a non-empty grid); distinct by the encoded case')
     ctx.trusted += ['Coq 8.16.1 kernel (coqc)',
                     'hand-written model coq/C09/GridPhys.v (C08 model + payload tokens) of fromgeo\'s add_* calls, rename_blocks and reorder; agreement with t2grids.py is TESTED on this run, not proved',
+                    'hand-written model coq/C09/MincModel.v (object heap, rational volumes/distances/areas) of minc, __add__, embed, add_rocktype/add_block/add_connection; agreement with t2grids.py is TESTED on this run, not proved',
+                    'the MINC geometry (proximity function, scipy bisect inversion, d[] and a[]) is NOT modelled: the model takes d[], a[] as inputs, read off a probe run of the real minc on a one-block grid',
                     'extraction: ExtrOcamlBasic + ExtrOcamlString, OCaml 4.13.1, ocaml/main.ml; PTBase.Wire helpers',
-                    'the Python statement of the physical signature and of the MINC / embed clauses in tools/props/C09.py',
-                    'float arithmetic of the interpreter for the MINC/embed volume comparisons (relative tolerance 1e-9)']
+                    'the Python statement of the physical signature and of the MINC / embed clauses, the dump comparator (1e-12 relative on numbers) in tools/props/C09.py',
+                    'float arithmetic of the interpreter for the MINC/embed volume comparisons of the oracle (relative tolerance 1e-9)']
     ctx.assumptions += ['payload values are compared exactly for reorder/rename (they are moved, at most negated, never recomputed); to 2e-4 relative after a data-file write/read (5 significant digits on file)',
                         'rename maps are one-to-one on the grid\'s blocks; reorder lists name every block / connection exactly once',
-                        'MINC volume theorems are proved in exact rational arithmetic on the normalised fractions; the implementation works in doubles (compared to 1e-9)',
-                        'MINC connection areas/distances (proximity-function inversion by scipy bisect) are not checked against a model: only volumes, names and the chain structure',
-                        'embed: total volume is compared when the host is not a 1e25 atmosphere block (1e25 - v is not representable)']
+                        'MINC / embed theorems are in exact rational arithmetic (fractions normalised by their exact sum); the implementation works in doubles (dumps compared to 1e-12, oracle to 1e-9)',
+                        'MINC theorems assume a well-formed grid (dictionaries describe the lists, connections join blocks of the grid, rock types filed under their names) and a selection of distinct names of blocks of the grid; the oracle counts how many real grids meet this (wf-hypothesis-holds)',
+                        'MINC connection areas/distances: the model reproduces original_vol * a[m-1] and [d[m-1], d[m]] from the probed d[], a[]; whether d[], a[] are the right geometry for the proximity function is not checked',
+                        'embed: total volume is compared by the oracle when the host is not a 1e25 atmosphere block (1e25 - v is not representable); the model comparison covers those too',
+                        'the state of a grid after minc / embed raised is not modelled (only the exception class is compared)']
     ctx.stage()
     ok = ctx.coq_build(props=('Props.v',))
     exe = vf.build_driver(ctx)
     if ctx.thorough: n_rr, n_minc, n_embed, sizes, wf = 6000, 3000, 1500, ['small'] * 4 + ['medium'] * 4 + ['large'] * 2, 0.25
-    else: n_rr, n_minc, n_embed, sizes, wf = 700, 400, 200, ['small'] * 5 + ['medium'] * 4 + ['large'], 0.15
+    else: n_rr, n_minc, n_embed, sizes, wf = 700, 480, 240, ['small'] * 5 + ['medium'] * 4 + ['large'], 0.15
     tot = sweep(ctx, exe, n_rr, n_minc, n_embed, sizes, wf)
     ctx.extra['input_distribution'] = {'reorder_rename': dict(tot['rr'].kinds), 'grids': dict(tot['rr'].sizes), 'minc': dict(tot['minc'].kinds),
                                        'embed': dict(tot['embed'].kinds)}
@@ -615,24 +784,30 @@ def replay(ctx, data):
     if kind == 'minc':
         sel = case['blocks']
         if sel is not None and case.get('blocks_as_objects'): sel = [g.block[n] for n in sel]
-        out = minc_check(g, case, sel)
+        out, exc = minc_check(g, case, sel)
         for key, obs, req in out: print('  %s: %s' % (key, obs))
+        if not out and data.get('finding_key', '').startswith('write-read'):
+            d = file_roundtrip_diff(g, phys(g))
+            if d: print('  ' + d); return True
         return bool(out)
     if kind == 'embed':
-        from mulgrids import mulgrid
+        import io, contextlib
         T = _impl()
-        sx, sy, sz, scale = case['sub']
-        for conv in (0, 1, 2):
-            geo, g = build(params)
-            sub = T.t2grid().fromgeo(mulgrid().rectangular([scale] * sx, [scale] * sy, [scale] * sz, atmos_type=2, chars='uvwxyz', convention=conv))
-            if case['inner'] not in sub.block: continue
-            host, inner = g.block[case['host']], sub.block[case['inner']]
-            total = sum(float(b.volume) for b in g.blocklist); hostvol = float(host.volume); subvol = sum(float(b.volume) for b in sub.blocklist)
-            r = g.embed(sub, T.t2connection([host, inner], 1, [1., 1.], 1., 0.0))
-            if r is None:
-                print('  embed returned None'); return subvol < hostvol
-            nt = sum(float(b.volume) for b in r.blocklist)
-            print('  total volume %r -> %r' % (total, nt))
-            return abs(nt - total) > 1e-9 * max(abs(total), 1.)
-        return True
+        if 'distances' not in case: case = dict(case, distances=[1., 1.], area=1.)
+        sub, host, inner, con = embed_setup(T, None, g, case)
+        total = sum(float(b.volume) for b in g.blocklist); hostvol = float(host.volume); subvol = sum(float(b.volume) for b in sub.blocklist)
+        dup = set(b.name for b in g.blocklist) & set(b.name for b in sub.blocklist)
+        try:
+            with contextlib.redirect_stdout(io.StringIO()):
+                r = g.embed(sub, con)
+        except Exception as e:
+            print('  embed raised %s' % exn_name(e)); return True
+        if r is None:
+            print('  embed returned None'); return (not dup) and subvol < hostvol
+        nt = sum(float(b.volume) for b in r.blocklist)
+        hb = r.block.get(host.name)
+        print('  total volume %r -> %r; host %r -> %r (sub-grid %r)' % (total, nt, hostvol, None if hb is None else float(hb.volume), subvol))
+        if hb is None or abs(float(hb.volume) - (hostvol - subvol)) > 1e-9 * max(hostvol, 1.): return True
+        if len(r.blocklist) != len(g.blocklist) + len(sub.blocklist) or (host.name, inner.name) not in r.connection: return True
+        return hostvol < 1e20 and abs(nt - total) > 1e-9 * max(abs(total), 1.)
     return True
